@@ -432,6 +432,11 @@ _default_bytes_decode = METHODS[(SBytes, "decode")]
 
 @method(SBytes, "decode")
 def _decode_ascii_fact(it, s, *a, **k):
+    if getattr(it.ex, "exact_regex", False) and s.concrete() is None:
+        enc0 = (a[0].concrete() if a else (k["encoding"].concrete() if "encoding" in k else "utf-8")).lower().replace("_", "-")
+        if enc0 in ("utf-8", "utf8"):
+            # pure ASCII input is always decodable (the default model decides decodability by an uninterpreted predicate)
+            it.ex.assume(z3.Implies(z3.InRe(s.t, _ASCII), uf(f"decodable_{enc0}", _S, z3.BoolSort())(s.t)))
     r = _default_bytes_decode(it, s, *a, **k)
     if getattr(it.ex, "exact_regex", False) and s.concrete() is None and isinstance(r, SStr):
         enc = (a[0].concrete() if a else (k["encoding"].concrete() if "encoding" in k else "utf-8")).lower().replace("_", "-")
